@@ -268,6 +268,7 @@ pub struct Op {
     pub d: usize,
     pub x: String,
     pub v: u32,
+    pub w: u32,
 }
 
 pub fn parse_op(v: &Value) -> Op {
@@ -277,6 +278,7 @@ pub fn parse_op(v: &Value) -> Op {
         d: v[2].as_u64().unwrap_or(0) as usize,
         x: v[3].as_str().unwrap_or("").to_string(),
         v: v[4].as_u64().unwrap_or(0) as u32,
+        w: v.get(5).and_then(|x| x.as_u64()).unwrap_or(0) as u32,
     }
 }
 
